@@ -234,20 +234,21 @@ Fired(D) ==
      \/ d = "staleFile" /\ RegenOf(D) # RegenOf({})
      \/ d = "rootLeftover" /\ cfg.rl = "single"}
 
-\* deviations after which the statements no longer demand that the package compiles
-CompBreaking == {"warnNesting", "aliasSuffix", "aliasReserved", "blank2"}
+\* deviations after which the package does not compile (the kept body references a lost import / a file does not parse)
+CompBreaking == {"warnNesting", "aliasSuffix", "aliasReserved"}
 
 AddsOnly == dirty # "other" /\ OnlyMethods
 
 GenResult(D) ==
   IF Broken(D)
-  THEN [meth |-> meth, helpers |-> helpers, imports |-> imports, warn |-> warn, ok |-> FALSE, comp |-> "unk"]
+  THEN [meth |-> meth, helpers |-> helpers, imports |-> imports, warn |-> warn, ok |-> FALSE, comp |-> "no"]
   ELSE [meth    |-> [f \in RFiles |-> [p \in Pairs |-> NewMeth(f, p, D)]],
         helpers |-> [f \in RFiles |-> IF f \in RegenOf(D) THEN {} ELSE helpers[f]],
         imports |-> [f \in RFiles |-> NewImports(f, D)],
         warn    |-> [f \in RFiles |-> IF f \in RegenOf(D) THEN WarnOf(f, D) ELSE warn[f]],
         ok      |-> TRUE,
-        comp    |-> IF comp = "yes" /\ AddsOnly /\ Fired(D) \cap CompBreaking = {} THEN "yes" ELSE "unk"]
+        comp    |-> IF Fired(D) \cap CompBreaking # {} THEN "no"
+                    ELSE IF comp = "yes" /\ AddsOnly THEN "yes" ELSE "unk"]
 
 Generate(seed, dir, procs) ==
   /\ Step
@@ -293,7 +294,7 @@ TypeOK ==
   /\ cfg \in Cfgs
   /\ \A f \in RFiles, p \in Pairs : MethRecOK(meth[f][p])
   /\ \A f \in RFiles : helpers[f] \subseteq HelperToks /\ imports[f] \subseteq ImportToks
-  /\ ok \in BOOLEAN /\ comp \in {"yes", "unk"} /\ dirty \in {"clean", "go", "adds", "other"}
+  /\ ok \in BOOLEAN /\ comp \in {"yes", "unk", "no"} /\ dirty \in {"clean", "go", "adds", "other"}
   /\ n \in 0..MaxHist
 
 \* a field of a removed type is not live
@@ -306,64 +307,92 @@ LayoutOK == cfg.rl = "single" => \A f \in Files : (\A p \in Pairs : ~Has(f, p)) 
 GenerateTotal == (ok /\ n < MaxHist) => ENABLED GenerateAny
 
 ----------------------------------------------------------------------------
-(* Action properties: the statements, over pre/post states of Generate steps *)
+(* The statements as POSTCONDITIONS of a Generate step: predicates over the pre-state (the variables)   *)
+(* and a post record r = [meth, helpers, imports, warn, ok, comp].  They are used twice:                *)
+(*   - as action properties of this module (r = the successor TLC computes): the DESIGN satisfies them; *)
+(*   - by ProjectStep.tla on OBSERVED steps of the real generator (r = go/parser projection of the real  *)
+(*     tree after the run): the property-level VERDICT of C19 / C18, independent of what any model of   *)
+(*     the implementation predicted for that step.                                                       *)
 
 GenStep == act'.name = "Generate" /\ n' = n + 1
+PostRec(me, he, im, wa, o, co) == [meth |-> me, helpers |-> he, imports |-> im, warn |-> wa, ok |-> o, comp |-> co]
 SameCode(a, b) == a.body = b.body /\ a.named = b.named /\ a.uses = b.uses
 SameDoc(a, b)  == a.doc = "none" \/ a.doc = b.doc
 
-\* C19: a method whose field still exists (and that is declared once) keeps body, doc, named results,
-\*      and afterwards lives in exactly the file its field's schema file maps to (or stays where it is
-\*      when that file is not rewritten)
-MethodsKept ==
-  [][GenStep => \A p \in Pairs : (Live(p) /\ Cardinality(Holders(p)) = 1) =>
-        LET f == Prev(p) IN
-        \E g \in RFiles : /\ meth'[g][p].body # "none"
-                          /\ SameCode(meth[f][p], meth'[g][p]) /\ SameDoc(meth[f][p], meth'[g][p])]_vars
+\* C19: a method whose field still exists (and that is declared once) keeps body, doc, named results
+MethodsKeptP(r) ==
+  \A p \in Pairs : (Live(p) /\ Cardinality(Holders(p)) = 1) =>
+     \E g \in RFiles : /\ r.meth[g][p].body # "none"
+                       /\ SameCode(meth[Prev(p)][p], r.meth[g][p]) /\ SameDoc(meth[Prev(p)][p], r.meth[g][p])
 
 \* C19: every live field has a resolver method afterwards (resolver stubs are complete)
-StubsComplete ==
-  [][GenStep /\ ok' => \A p \in Pairs : Live(p) => meth'[Tgt(p)][p].body # "none"]_vars
+StubsCompleteP(r) == r.ok => \A p \in Pairs : Live(p) => r.meth[Tgt(p)][p].body # "none"
 
 \* C19: an import that the surviving methods of its file still use (or that is never pruned) is kept
-ImportsKept ==
-  [][GenStep => \A f \in RFiles : \A i \in imports[f] :
-        (i \in NeverPruned \/ \E p \in Pairs : meth'[f][p].body # "none" /\ i \in meth'[f][p].uses)
-           => i \in imports'[f]]_vars
+ImportsKeptP(r) ==
+  \A f \in RFiles : \A i \in imports[f] :
+     (i \in NeverPruned \/ \E p \in Pairs : r.meth[f][p].body # "none" /\ i \in r.meth[f][p].uses) => i \in r.imports[f]
 
 \* C19: the code of every other declaration is still present in the output of that run:
 \*      as a declaration of some resolver file, or inside the warning block of its file
-DeclsKept ==
-  [][GenStep =>
-       /\ \A f \in RFiles : \A h \in helpers[f] : h \in helpers'[f] \/ HTok(h) \in warn'[f]
-       /\ \A f \in RFiles : \A p \in Pairs : Has(f, p) =>
-             \/ \E g \in RFiles : meth'[g][p].body # "none" /\ SameCode(meth[f][p], meth'[g][p])
-             \/ MTok(p, meth[f][p]) \in warn'[f]]_vars
+DeclsKeptP(r) ==
+  /\ \A f \in RFiles : \A h \in helpers[f] : h \in r.helpers[f] \/ HTok(h) \in r.warn[f]
+  /\ \A f \in RFiles : \A p \in Pairs : Has(f, p) =>
+        \/ \E g \in RFiles : r.meth[g][p].body # "none" /\ SameCode(meth[f][p], r.meth[g][p])
+        \/ MTok(p, meth[f][p]) \in r.warn[f]
 
 \* C19 / C17: the run succeeds and every file parses
-FilesParse == [][GenStep => ok']_vars
+FilesParseP(r) == r.ok
 
 \* C19: files held only resolver methods and the change only added fields: compiled before => compiles after
-CompileKept == [][GenStep /\ comp = "yes" /\ AddsOnly => comp' = "yes"]_vars
+\*      (comp: "yes" compiles, "no" does not, "unk" not known / not demanded)
+CompileKeptP(r) == (comp = "yes" /\ AddsOnly) => r.comp # "no"
+
+\* C18: nothing edited since the last run => the run changes nothing; the WARNING block is by design the
+\*      content of the last run only, so a file may lose its block - but nothing may be added to it
+IdempotentP(r) ==
+  dirty = "clean" =>
+     /\ r.meth = meth /\ r.helpers = helpers /\ r.imports = imports /\ r.ok = ok
+     /\ \A f \in RFiles : r.warn[f] = {} \/ r.warn[f] = warn[f]
+
+PropNames == {"MethodsKept", "StubsComplete", "ImportsKept", "DeclsKept", "FilesParse", "CompileKept", "Idempotent"}
+Holds(name, r) ==
+  CASE name = "MethodsKept"   -> MethodsKeptP(r)
+    [] name = "StubsComplete" -> StubsCompleteP(r)
+    [] name = "ImportsKept"   -> ImportsKeptP(r)
+    [] name = "DeclsKept"     -> DeclsKeptP(r)
+    [] name = "FilesParse"    -> FilesParseP(r)
+    [] name = "CompileKept"   -> CompileKeptP(r)
+    [] name = "Idempotent"    -> IdempotentP(r)
+Viol(r) == {name \in PropNames : ~Holds(name, r)}
+
+MethodsKept   == [][GenStep => MethodsKeptP(PostRec(meth', helpers', imports', warn', ok', comp'))]_vars
+StubsComplete == [][GenStep => StubsCompleteP(PostRec(meth', helpers', imports', warn', ok', comp'))]_vars
+ImportsKept   == [][GenStep => ImportsKeptP(PostRec(meth', helpers', imports', warn', ok', comp'))]_vars
+DeclsKept     == [][GenStep => DeclsKeptP(PostRec(meth', helpers', imports', warn', ok', comp'))]_vars
+FilesParse    == [][GenStep => FilesParseP(PostRec(meth', helpers', imports', warn', ok', comp'))]_vars
+CompileKept   == [][GenStep => CompileKeptP(PostRec(meth', helpers', imports', warn', ok', comp'))]_vars
+Idempotent    == [][GenStep => IdempotentP(PostRec(meth', helpers', imports', warn', ok', comp')) /\ (dirty = "clean" => gen' = gen)]_vars
 
 \* C18: the output fingerprint is a function of (schema, cfg); nothing else is read
 Deterministic == [][GenStep => gen' = [s |-> schema', t |-> texists', c |-> cfg']]_vars
 GenIsFunction == gen = [s |-> gen.s, t |-> gen.t, c |-> cfg] /\ (dirty = "clean" => gen = Fingerprint)
 
-\* C18: nothing edited since the last run => the run changes nothing (the warning block is the last run's)
-Idempotent ==
-  [][GenStep /\ dirty = "clean" =>
-       /\ meth' = meth /\ helpers' = helpers /\ imports' = imports /\ gen' = gen /\ ok' = ok /\ comp' = comp
-       /\ \A f \in RFiles : warn'[f] = IF f \in RegenOf(Dev) THEN {} ELSE warn[f]]_vars
-
-\* properties restricted to steps on which no deviation fired (used with Dev # {})
+\* properties restricted to steps on which no deviation fired (edge export with Dev # {})
 NoDevStep == GenStep /\ act'.devs = {}
-MethodsKeptND == [][NoDevStep => \A p \in Pairs : (Live(p) /\ Cardinality(Holders(p)) = 1) =>
-        \E g \in RFiles : meth'[g][p].body # "none" /\ SameCode(meth[Prev(p)][p], meth'[g][p])
-                                                    /\ SameDoc(meth[Prev(p)][p], meth'[g][p])]_vars
+MethodsKeptND == [][NoDevStep => MethodsKeptP(PostRec(meth', helpers', imports', warn', ok', comp'))]_vars
 FilesParseND  == [][NoDevStep => ok']_vars
 \* with deviations on, the recorded ideal successor satisfies what the deviated one may not
 IdealRecorded == [][GenStep /\ act'.devs # {} => act'.ideal.ok]_vars
+
+(* Explaining an observed (or modelled) post record by named deviations: the smallest D for which the  *)
+(* implementation-level successor GenResult(D) has the same resolver part; Blame(name, D): the members  *)
+(* of D without which the property would hold.                                                          *)
+ResPart(r) == [meth |-> r.meth, helpers |-> r.helpers, imports |-> r.imports, warn |-> r.warn, ok |-> r.ok]
+Explaining(r) == {D \in SUBSET AllDevs : ResPart(GenResult(D)) = ResPart(r)}
+Smallest(Ds)  == CHOOSE D \in Ds : \A E \in Ds : Cardinality(D) <= Cardinality(E)
+Blame(name, D) ==
+  LET b == {d \in D : Holds(name, GenResult(D \ {d}))} IN IF b = {} THEN D ELSE b
 
 ----------------------------------------------------------------------------
 (* labelled edges of the state graph for replay into the real generator *)
